@@ -9,6 +9,7 @@ package main
 
 import (
 	"encoding/json"
+	"errors"
 	"fmt"
 	"os"
 	"strconv"
@@ -133,7 +134,7 @@ func render(sh Shape) string {
 	case "map-callback-recursion":
 		return prelude + fmt.Sprintf("access(all) fun rec(_ k: Int): Int { %s; %s%s; return [k].map(fun (x: Int): Int { return rec(x + 1) + 1 })[0] }\naccess(all) fun main() { rec(1) }", locals, depthLog, b)
 	case "optional-map-recursion":
-		return prelude + fmt.Sprintf("access(all) fun rec(_ k: Int): Int { %s; %s%s; let o: Int? = k; return o.map(fun (x: Int): Int { return rec(x + 1) + 1 })! }\naccess(all) fun main() { rec(1) }", locals, depthLog, b)
+		return prelude + fmt.Sprintf("access(all) fun rec(_ k: Int): Int { %s; %s%s; let ok: Int? = k; return ok.map(fun (x: Int): Int { return rec(x + 1) + 1 })! }\naccess(all) fun main() { rec(1) }", locals, depthLog, b)
 	case "forEachKey-recursion":
 		return prelude + fmt.Sprintf("access(all) fun rec(_ k: Int) { %s; %s%s; let dd = {k: k}; dd.forEachKey(fun (key: Int): Bool { rec(key + 1); return true }) }\naccess(all) fun main() { rec(1) }", locals, depthLog, b)
 	case "filter-callback-recursion":
@@ -297,6 +298,11 @@ func runShape(sh Shape, engine string) Result {
 		res.Outcome = "memory"
 	default:
 		res.Outcome = "other:" + r.Class
+		// a rendered shape the parser or checker rejects is an error of this driver, never a verdict
+		var pce *runtime.ParsingCheckingError
+		if errors.As(r.Err, &pce) {
+			res.Class = "CheckerRejected:" + r.Class
+		}
 	}
 	res.Trace = append(res.Trace, Ev{Ev: "End", Ok: r.Err == nil, G: res.Outcome})
 	return res
